@@ -27,7 +27,7 @@
     filter_preserves_wellnested
     chain_wellnested buffers_balanced before_after_any_stream
     invert_wrap_breaks_nesting attr_wrap_emits_empty_wrapper
-    select_only_id_ok filler_unnamed_unchanged filler_unnamed_id
+    select_only_id_ok selects_only_id filler_unnamed_unchanged filler_unnamed_id
     filler_empty_id filler_only_value_attrs_partial filler_no_text_change_partial
     filler_wellnested_partial filler_fills_given_partial filler_checks_given filler_selects_given
     filler_fills_textarea_partial filler_no_passwords
@@ -59,6 +59,13 @@ example : unmark (selectGo 0 [.none, .hit, .none]
 theorem select_only_id_ok (rs : List Res) (s : Stream) (h : selOk 0 rs (markAll s) = true) :
     unmark (selectGo 0 rs (markAll s)) = s := by
   rw [unmark_selectGo_ok 0 rs (markAll s) h, unmark_markAll]
+
+/-- A transformer that only selects — any number of nested `select`s — is the identity on
+    every well-nested stream (and does not fail). -/
+theorem selects_only_id (ops : List Op) (hall : ∀ op ∈ ops, isSelect op = true) (s : Stream)
+    (hs : WellNested s) (hsel : chainSelOk ops [] (markAll s) = true) : transform ops s = some s := by
+  obtain ⟨out, h1, h2⟩ := runChain_selects ops hall [] (markAll s) (by rw [unmark_markAll]; exact hs) hsel
+  simp [transform, transformMarked, h1, h2, unmark_markAll]
 
 /-- `select_marks_wf`: on a well-nested stream, for *any* admissible per-event match
     results, the marking a select produces is `Good` (ENTER/INSIDE/EXIT bracket whole
